@@ -69,7 +69,9 @@ pub fn judge(item: &Item, obs: &Obs, seq: Option<&Result<hcore::visit::TermResul
     let ck = item.checks;
     let mut vs = Vec::new();
     if let (Err(msg), None) = (&obs.result, item.case.fault) {
-        vs.push(Viol { key: "panic".into(), what: format!("terminal panicked without an injected fault: {}", msg) });
+        // collects of zero-sized items are keyed by builder type and terminal (known finding F9 lists two sites)
+        let key = if item.case.term.is_zst() { format!("zst-panic:{}.{}", hcore::chaintab::INFO[item.case.chain].0, item.case.term.name()) } else { "panic".to_string() };
+        vs.push(Viol { key, what: format!("terminal panicked without an injected fault: {}", msg) });
         return vs;
     }
     if matches!(obs.result, Ok(hcore::visit::TermResult::NA)) {
